@@ -1035,7 +1035,20 @@ func (c *StructConverter) To(obj Object) (interface{}, error) {
 						if err != nil {
 							return nil, err
 						}
-						f.Set(reflect.ValueOf(attrValue))
+						if attrValue == nil {
+							f.SetZero()
+							continue
+						}
+						rv := reflect.ValueOf(attrValue)
+						// A struct-valued field is converted through its pointer type
+						if f.Kind() == reflect.Struct && rv.Kind() == reflect.Ptr && !rv.IsNil() {
+							rv = rv.Elem()
+						}
+						if !rv.Type().AssignableTo(f.Type()) {
+							return nil, errz.TypeErrorf("type error: cannot assign %s to field %s of type %s",
+								rv.Type(), k, f.Type())
+						}
+						f.Set(rv)
 					}
 				}
 			}
